@@ -226,7 +226,18 @@ fn enc_load() {
     let auth = v_u64("auth", 1) == 1;
     let rem = n.saturating_sub(q);
     let r = catch_unwind(AssertUnwindSafe(|| -> Option<String> {
-        let (mut s, _plain) = stream_with_remaining(ccn, rem.min(2 * cts()), auth);
+        // an altered chunk is a GENUINE chunk (whatever its length) whose stored tag is then changed
+        // where the solver chose: the recomputed and the stored tag differ exactly there
+        let (mut s, _plain) = stream_with_remaining(ccn, rem.min(2 * cts()), auth || rem >= 16);
+        if !auth && rem == 16 && s.len() as u64 == ccn * cts() {
+            // the writer never emits an empty chunk: its tag comes from the reference AES-GCM
+            use aes_gcm::{aead::Aead, Aes256Gcm, KeyInit as _};
+            let mut nonce = [0u8; 12];
+            nonce[..8].copy_from_slice(&NONCE);
+            nonce[8..].copy_from_slice(&(ccn as u32).to_be_bytes());
+            let empty: &[u8] = &[];
+            s.extend_from_slice(&Aes256Gcm::new_from_slice(&KEY).unwrap().encrypt((&nonce).into(), empty).unwrap());
+        }
         if !auth && rem >= 1 {
             // altered chunk: the stored TAG differs from the genuine one exactly where the solver
             // chose (a reader comparing only part of the tag accepts it); when the chunk has no
